@@ -23,6 +23,20 @@ MISSED_FIRST = {   # round 2: not caught by the check as it stood; what was stre
     'C13_e': 'site texts were all short: length classes 80/100/120/256/1000 added at every site',
     'C14_f': 'comment pool had no braces (kept away because of D5): braces added for every element except references',
     'C17_f': 'no scenario removed a table through an equal but distinct object: added',
+    # round 4
+    'C01_g': 'note pool had no interior whitespace-only line longer than the indentation: added (parse level; its round trip is finding D14)',
+    'C02_g': 'blank-only single-line notes were excluded from the round-trip domain although only newline-only notes are defective (D35): exclusion narrowed, such notes added',
+    'C03_h': 'API generator had no tiny float defaults (exponent notation): added',
+    'C06_g': 'missing-table injection used a name that exists nowhere: a name that exists only in another schema added',
+    'C07_h': 'no fault used a character that str.splitlines takes for a line end (VT FF FS GS RS NEL LS PS): added as stray tokens and in place of required newlines',
+    'C08_h': 'names never contained those separators: short-string products for Project / TableGroup / Table / Enum names and notes added',
+    'C11_h': 'no clause looked at interpreter-wide settings: documents nested far below / far beyond the recursion limit are now parsed alone and under concurrency',
+    'C12_h': 'only one unsupported source type was tried: bytes (also bytes naming an existing file), bytearray, numbers, containers, BytesIO added',
+    'C13_g': 'the expression clause built Expression objects through the API only: backtick expressions with backslash sequences are now parsed from documents',
+    'C14_g': 'documents never had CRLF line endings: comment pairs are now also parsed with CRLF, with line-boundary characters inside comments',
+    'C15_h': 'property values never began with blanks: leading / trailing blanks and U+3000 added',
+    'C16_g': 'every scenario built its database through the API: parsing with configured renderer classes through Path / open-file sources added',
+    'C17_g': 'reference sides always had equal length: sides of different length with the detached column beyond the shorter side added',
 }
 
 def cell(t, n):
